@@ -638,4 +638,70 @@ theorem override_examples :
     validateRequest { multiError := true } op exEnv =
       .multi [.param ⟨"id", .cookie, false⟩, .param ⟨"z", .header, false⟩] := by decide
 
+/-! ### The interpreter is semantic: neighbouring programs mean something else
+
+Each of these programs differs from the source's in one row (they are the shapes the translator can also read); on the
+given operation the interpreter returns what that code would return — not what the property demands. The theorems
+above are therefore statements about the programs read from the source, not about the interpreter alone. -/
+
+def exOp2 : Op :=
+  { opParams := some [⟨"id", .header, true⟩, ⟨"id", .query, true⟩],
+    pathParams := [⟨"id", .query, false⟩, ⟨"id", .cookie, false⟩, ⟨"z", .header, false⟩],
+    opSecurity := none, docSecurity := [[⟨"k", []⟩]], hasBody := true, bodyOK := false }
+
+def runWith (request : List ReqStep) (lookup : List LookStep) (o : Opts) (op : Op) (env : Env) : Res :=
+  (runRequest { thePrograms with request := request, lookup := lookup } o op env request [] []).1
+
+def reqProgWith (guard : Guard) (secAct : ErrAct) (body : List ReqStep) : List ReqStep :=
+  [.optionsDefault, .security .operation .document secAct,
+   .paramLoop .pathItem [.exQuery .cont, guard] .retUnlessMulti,
+   .paramLoop .operation [.exQuery .cont] .retUnlessMulti] ++ body ++ [.retMeIfAny, .retNil]
+
+theorem neighbouring_programs_differ :
+    let srcGuard := Guard.overridden .operation true .loc .name .cont
+    let srcBody := [ReqStep.body [.declared, .notExcluded] .retUnlessMulti]
+    let multi : Opts := { multiError := true }
+    let deny : Env := { declared := fun _ => true, auth := some (fun _ _ => false) }
+    -- the source's program: the overridden `id` in query is skipped, the two others and the body are reported
+    runWith (reqProgWith srcGuard .retUnlessMulti srcBody) thePrograms.lookup multi exOp2 exEnv =
+      .multi [.param ⟨"id", .cookie, false⟩, .param ⟨"z", .header, false⟩, .body] ∧
+    -- `break` instead of `continue` after an override: everything after the overridden parameter is lost
+    runWith (reqProgWith (.overridden .operation true .loc .name .brk) .retUnlessMulti srcBody) thePrograms.lookup multi exOp2 exEnv =
+      .multi [.body] ∧
+    -- the two arguments of GetByInAndName swapped: nothing is ever overridden
+    runWith (reqProgWith (.overridden .operation true .name .loc .cont) .retUnlessMulti srcBody) thePrograms.lookup multi exOp2 exEnv =
+      .multi [.param ⟨"id", .query, false⟩, .param ⟨"id", .cookie, false⟩, .param ⟨"z", .header, false⟩, .body] ∧
+    -- a lookup that compares the name only: a parameter of the same name in another location counts as overridden
+    runWith (reqProgWith srcGuard .retUnlessMulti srcBody) [.findFirst [(.name, 1)], .retNil] multi exOp2 exEnv =
+      .multi [.param ⟨"z", .header, false⟩, .body] ∧
+    -- an unconditional `return err` after the security step: in multi-error mode the other failing parts are lost
+    runWith (reqProgWith srcGuard .ret srcBody) thePrograms.lookup multi exOp2 deny = .single .security ∧
+    -- the ExcludeRequestBody test moved in front of the body step as an early `return nil` is not a shape the
+    -- translator reads; dropping the `.notExcluded` condition instead checks an excluded body
+    runWith (reqProgWith srcGuard .retUnlessMulti [.body [.declared] .retUnlessMulti]) thePrograms.lookup
+        { multiError := true, excludeBody := true } { exOp2 with pathParams := [] } exEnv = .multi [.body] ∧
+    runWith (reqProgWith srcGuard .retUnlessMulti srcBody) thePrograms.lookup
+        { multiError := true, excludeBody := true } { exOp2 with pathParams := [] } exEnv = .ok ∧
+    -- a program that ends without `return`: not a Go function
+    runWith [.optionsDefault, .retMeIfAny] thePrograms.lookup {} exOp2 exEnv = .stuck := by decide
+
+/-- `break` instead of `continue` in the OR-loop over the requirements, or `continue` instead of `return err` after a
+rejected scheme: other verdicts and other calls -/
+theorem neighbouring_security_programs_differ :
+    let rs : List Requirement := [[⟨"a", []⟩, ⟨"b", []⟩], [⟨"b", []⟩]]
+    let env : Env := { declared := fun _ => true, auth := some (fun s _ => s == "b") }
+    let oneWith (e : Option Exit) : List OneStep :=
+      [.sortedNames, .optionsDefault, .needAuthFunc, .schemesFromComponents, .bodyIO,
+       .forNames [.lookupScheme, .undeclaredFails, .scopesOf, .bodyIO, .callAuth e], .retNil]
+    (match runSecAll thePrograms.secOne env thePrograms.secAll rs [] with
+      | .ret b log => (b, log.map (·.scheme)) | .stuck => (false, ["stuck"])) = (true, ["a", "b"]) ∧
+    (match runSecAll thePrograms.secOne env [.emptyOk, .tryEach .brk, .failAll] rs [] with
+      | .ret b log => (b, log.map (·.scheme)) | .stuck => (false, ["stuck"])) = (false, ["a"]) ∧
+    (match runSecAll (oneWith (some .cont)) env thePrograms.secAll rs [] with
+      | .ret b log => (b, log.map (·.scheme)) | .stuck => (false, ["stuck"])) = (true, ["a", "b"]) ∧
+    (match runSecAll (oneWith (some .cont)) env thePrograms.secAll [[⟨"a", []⟩]] [] with
+      | .ret b log => (b, log.map (·.scheme)) | .stuck => (false, ["stuck"])) = (true, ["a"]) ∧
+    (match runSecAll thePrograms.secOne env thePrograms.secAll [[⟨"a", []⟩]] [] with
+      | .ret b log => (b, log.map (·.scheme)) | .stuck => (false, ["stuck"])) = (false, ["a"]) := by decide
+
 end KinModel.RequestFlow
